@@ -121,15 +121,38 @@ pub fn render(case: &Value) -> String {
         }
         "dup" => {
             let dup = aux.as_bool().unwrap_or(false);
+            let variant = case["aux"].get(1).and_then(|v| v.as_str()).unwrap_or("");
             let second = if dup { "foo" } else { "bar" };
-            match pos {
-                "fn" => format!("fn foo(x: i32);\nfn {second}(x: i64);\n"),
-                "const" => format!("const foo: i32 = 200;\nconst other: i32 = 250;\nconst {second}: i32 = 300;\n"),
-                "param" => format!("fn f(x: i32, foo: i32, {second}: i32);\n"),
-                "struct" => format!("struct foo {{ x: i32, }}\nstruct {second} {{ y: i32, }}\n"),
-                "structword" => format!("struct foo {{ x: i32, }}\nword16 {second} {{ row: i8, col: i8, }}\n"),
-                "member" => format!("struct Q {{ foo: [4]u64, {second}: usize, }}\n"),
-                other => panic!("unknown duplicate cell {other}"),
+            match (pos, variant) {
+                ("fn", "head+head") | ("fn", "") => format!("fn foo(x: i32);\nfn {second}(x: i64);\n"),
+                ("fn", "body+head") => format!("fn foo(x: i32)\n{{\n}}\nfn {second}(x: i64);\n"),
+                ("fn", "head+body") => format!("fn foo(x: i32);\nfn {second}(x: i64)\n{{\n}}\n"),
+                ("fn", "body+body") => format!("fn foo(x: i32)\n{{\n}}\nfn {second}(x: i64)\n{{\n}}\n"),
+                ("fn", "extern+head") => format!("extern fn foo(x: i32);\nfn {second}(x: i64);\n"),
+                ("fn", "pub+head") => format!("pub fn foo(x: i32)\n{{\n}}\nfn {second}(x: i64);\n"),
+                ("const", "adjacent") => format!("const foo: i32 = 200;\nconst {second}: i32 = 300;\n"),
+                ("const", "apart") | ("const", "") => format!("const foo: i32 = 200;\nconst other: i32 = 250;\nconst {second}: i32 = 300;\n"),
+                ("const", "pub") => format!("const foo: i32 = 200;\nfn g();\npub const {second}: i32 = 300;\n"),
+                ("param", "param@head") | ("param", "") => format!("fn f(x: i32, foo: i32, {second}: i32);\n"),
+                ("param", "param@head-first") => format!("fn f(foo: i32, {second}: i32, x: i32);\n"),
+                ("param", "param@body") => format!("fn f(x: i32, foo: i32, {second}: i32)\n{{\n}}\n"),
+                ("param", "param@extern") => format!("extern fn f(x: i32, foo: i32, {second}: i32);\n"),
+                ("param", "param@pub") => format!("pub fn f(foo: i32, {second}: i32) -> i32\n{{\n\treturn: foo\n}}\n"),
+                ("param", "const-before@head") => format!("const foo: i32 = 200;\nfn f(x: i32, {second}: i32);\n"),
+                ("param", "const-after@head") => format!("fn f(x: i32, {second}: i32);\nconst foo: i32 = 200;\n"),
+                ("param", "const-before@body") => format!("const foo: i32 = 200;\nfn f(x: i32, {second}: i32)\n{{\n}}\n"),
+                ("param", "const-after@body") => format!("fn f(x: i32, {second}: i32)\n{{\n}}\nconst foo: i32 = 200;\n"),
+                ("param", "const-before@extern") => format!("const foo: i32 = 200;\nextern fn f({second}: i32);\n"),
+                ("param", "const-after@extern") => format!("extern fn f({second}: i32, x: i32);\nconst foo: i32 = 200;\n"),
+                ("param", "const-after@pub") => format!("pub fn f({second}: i32) -> i32\n{{\n\treturn: {second}\n}}\npub const foo: i32 = 200;\n"),
+                ("struct", "struct+struct") | ("struct", "") => format!("struct foo {{ x: i32, }}\nstruct {second} {{ y: i32, }}\n"),
+                ("struct", "word+struct") => format!("word16 foo {{ row: i8, col: i8, }}\nstruct {second} {{ y: i32, }}\n"),
+                ("struct", "word+word") => format!("word16 foo {{ row: i8, col: i8, }}\nword32 {second} {{ y: i32, }}\n"),
+                ("structword", _) => format!("struct foo {{ x: i32, }}\nword16 {second} {{ row: i8, col: i8, }}\n"),
+                ("member", "struct") | ("member", "") => format!("struct Q {{ foo: [4]u64, {second}: usize, }}\n"),
+                ("member", "word") => format!("word16 Q {{ foo: i8, {second}: i8, }}\n"),
+                ("member", "first-last") => format!("struct Q {{ foo: [4]u64, mid: bool, {second}: usize, }}\n"),
+                other => panic!("unknown duplicate cell {other:?}"),
             }
         }
         other => panic!("unknown family {other}"),
